@@ -6,6 +6,7 @@ import (
 	"go/ast"
 	"go/token"
 	"go/types"
+	"golang.org/x/tools/go/ssa"
 	"strings"
 
 	"golang.org/x/tools/go/packages"
@@ -442,6 +443,13 @@ func runC14(c *Ctx) {
 		}
 		c.Ob("MEM-WALK-SORTED", "storagemem.bucket.Walk", wk.Decl.Pos(), ok && !inMap, true, "the callback runs inside a loop over the sorted path slice (sort dominates it; not inside a map range): %v", ok && !inMap)
 	}
+	var stPkgs []*packages.Package
+	for _, rel := range []string{"private/pkg/storage", "private/pkg/storage/storagemem", "private/pkg/storage/storageos"} {
+		if q := p.Pkg(rel); q != nil {
+			stPkgs = append(stPkgs, q)
+		}
+	}
+	c14PrefixNotPath(c, stPkgs)
 }
 
 // ruleOneCriticalSection (added after seeded change C14-b): in every method of typeName, all accesses to the
@@ -500,5 +508,79 @@ func ruleOneCriticalSection(c *Ctx, rule string, pk *packages.Package, typeName,
 		}
 		c.Ob(rule, fr.ID()+"/one-critical-section", fr.Decl.Pos(), split == "", true,
 			"%d accesses to the guarded map(s) in one critical section (no explicit unlock between two of them): %v %s", len(accesses), split == "", split)
+	}
+}
+
+// c14PrefixNotPath (PREFIX-NOT-PATH, round 2): Walk and DeleteAll take a *prefix*, and the root ("", ".", "./") is a
+// legal prefix that means "everything"; Get/Put/Delete take an object *path*, for which the root is an error. Some
+// helpers of the bucket combinators are written for paths and reject the normalised root. A prefix operation that
+// routes its argument through such a helper turns "clear / list the whole view" into an error (or a no-op) on that
+// combinator only, so the combinator stops behaving like the plain map the other buckets implement. Decided on SSA:
+// no Walk/DeleteAll method of the storage packages passes a value derived from its prefix parameter to a package
+// function that returns an error on the edge where its argument equals ".".
+func c14PrefixNotPath(c *Ctx, pkgs []*packages.Package) {
+	const rule = "PREFIX-NOT-PATH"
+	c.Rule(rule, "prefix operations (Walk, DeleteAll) never route the prefix through a helper that rejects the root", 8)
+	p := c.P
+	rootRejecting := map[*ssa.Function]bool{}
+	for _, sf := range p.SSAFuncsOf(pkgs) {
+		for _, b := range sf.Blocks {
+			i := ifOf(b)
+			if i == nil {
+				continue
+			}
+			bin, ok := i.Cond.(*ssa.BinOp)
+			if !ok || (bin.Op != token.EQL && bin.Op != token.NEQ) {
+				continue
+			}
+			if !isConstString(bin.X, ".") && !isConstString(bin.Y, ".") {
+				continue
+			}
+			succ := b.Succs[0]
+			if bin.Op == token.NEQ {
+				succ = b.Succs[1]
+			}
+			if len(succ.Instrs) == 0 {
+				continue
+			}
+			if r, ok := succ.Instrs[len(succ.Instrs)-1].(*ssa.Return); ok && len(r.Results) > 0 {
+				last := r.Results[len(r.Results)-1]
+				if isErrorType(last.Type()) && !isNilConst(last) {
+					rootRejecting[sf] = true
+				}
+			}
+		}
+	}
+	c.Ob(rule, "root-rejecting-helpers", token.NoPos, len(rootRejecting) >= 1, false, "%d helper(s) in the storage packages reject the root path", len(rootRejecting))
+	for _, sf := range p.SSAFuncsOf(pkgs) {
+		if sf.Signature.Recv() == nil || (sf.Name() != "Walk" && sf.Name() != "DeleteAll") || len(sf.Params) < 3 {
+			continue
+		}
+		// the prefix parameter: the string parameter after the context
+		var prefix *ssa.Parameter
+		for _, prm := range sf.Params[1:] {
+			if b, ok := prm.Type().Underlying().(*types.Basic); ok && b.Kind() == types.String {
+				prefix = prm
+				break
+			}
+		}
+		if prefix == nil {
+			continue
+		}
+		var bad []string
+		for _, f := range allSSAFuncs(sf) {
+			for _, call := range callsIn(f) {
+				callee := call.Call.StaticCallee()
+				if callee == nil || !rootRejecting[callee] {
+					continue
+				}
+				for _, a := range call.Call.Args {
+					if dependsOnValue(a, prefix) {
+						bad = append(bad, callee.Name())
+					}
+				}
+			}
+		}
+		c.Ob(rule, ssaFuncName(sf), sf.Pos(), len(bad) == 0, true, "the prefix reaches no root-rejecting helper: %v %v", len(bad) == 0, bad)
 	}
 }
